@@ -321,6 +321,19 @@ def cron_on_stores(ctx: Ctx, drv: LeanDriver, fam: list[list[str]]) -> None:
                  CronCfg(window=60, min_interval=50, tolerance=0, strict=True), CronCfg(window=0, min_interval=0, tolerance=0, strict=False)):
         cases.append(("* * * * *".split(), cfg0, None, dense, "dense-zero-settings"))
         cases.append(("*/5 * * * *".split(), cfg0, T0 - 600 * US_SEC, dense, "dense-zero-settings"))
+    # directed: schedules whose ticks are a day / a week apart, polled twice around each tick for several periods (the previous firing is
+    # then 24 h or more old - more than any "seconds" component can hold)
+    from croniter import croniter
+
+    for expr, periods in (("30 6 * * *", 5), ("15 3 * * 1", 3), ("0 0 1 * *", 3)):
+        ticks, cur = [], to_dt(T0)
+        for _ in range(periods):
+            cur = croniter(expr, cur).get_next(dt.datetime)
+            ticks.append(to_us(cur))
+        sparse = [t + d * US_SEC for t in ticks for d in (5, 65)]
+        for cfgd in (CronCfg(window=300, min_interval=240, tolerance=30, strict=False), CronCfg(window=120, min_interval=50, tolerance=30, strict=False)):
+            cases.append((expr.split(), cfgd, None, sparse, "sparse-over-periods"))
+            cases.append((expr.split(), cfgd, ticks[0] - 86400 * US_SEC * (7 if "1" == expr.split()[4] else 1) + 7 * US_SEC, sparse, "sparse-over-periods"))
     STORE_SETTINGS_CHANGED.clear()
     lines, want, meta = [], [], []
     nviol = Counter()
@@ -929,6 +942,74 @@ def fixed_scenarios(ctx: Ctx) -> None:
     ctx.notes["scenarios"] = res
 
 
+def loop_faults(ctx: Ctx) -> None:
+    """A storage fault ("database is locked", a dropped connection) strikes the k-th access of a loop iteration to the trigger store
+    or the launch itself, every k; the iteration fails (the runner's service loop reports it) and later iterations run without faults -
+    first while the claims of the failed iteration are still held, then after they have expired.  Outside the stated quantifier (no
+    faults there); judged by the statement all the same: every pending occurrence is launched once - not lost, not launched twice."""
+    import sqlite3
+
+    T0 = 1_700_000_040_000_000
+    res: Counter = Counter()
+    for kind in ("mem", "sqlite"):
+        for logic, nocc, want in (("or", 3, 3), ("and", 1, 1)):
+            for k in range(0, 30):
+                b = _single(kind, ctx.tmp, f"lf{logic}{k}", [CondSpec("event", code="ping")], [TrigSpec("target", [0], logic, ["c:event"])])
+                o = Occurrences(b)
+                trig = b.app.trigger
+                n = {"ops": 0, "done": None}
+                saved = {}
+                with VirtualClock(T0) as clk:
+                    for j in range(nocc):
+                        o.event("ping", str(j + 1))
+
+                    def wrap(opname):  # type: ignore[no-untyped-def]
+                        real = getattr(trig, opname)
+
+                        def f(*a, **kw):  # type: ignore[no-untyped-def]
+                            if n["ops"] == k and n["done"] is None:
+                                n["done"] = opname
+                                n["ops"] += 1
+                                raise sqlite3.OperationalError("database is locked")
+                            n["ops"] += 1
+                            return real(*a, **kw)
+                        saved[opname] = real
+                        setattr(trig, opname, f)
+
+                    for opname in STORE_OPS:
+                        if hasattr(trig, opname):
+                            wrap(opname)
+                    raised = None
+                    try:
+                        trig.trigger_loop_iteration()
+                    except Exception as e:  # noqa: BLE001
+                        raised = type(e).__name__
+                    finally:
+                        for opname in saved:
+                            delattr(trig, opname)
+                    if n["done"] is None:
+                        break                                   # the iteration has fewer than k store accesses
+                    for _ in range(3):                          # the claims made before the fault are still held
+                        clk.advance(2 * US_SEC)
+                        trig.trigger_loop_iteration()
+                    for _ in range(2):                          # ... and have expired
+                        clk.advance(180 * US_SEC)
+                        trig.trigger_loop_iteration()
+                    got, left = len(b.launches()), len(b.valid_ids())
+                ctx.count()
+                ctx.distinct(("loop-fault", kind, logic, n["done"], k))
+                op = n["done"]
+                res[f"{op}:{'ok' if got == want else ('lost' if got < want else 'twice')}"] += 1
+                if got != want:
+                    what = "occurrence-lost" if got < want else "launched-twice"
+                    ctx.report(f"loop-fault:{op}:{what}",
+                               f"{kind}: {nocc} `ping` event(s) pending, {logic.upper()} trigger; store access #{k} of the loop iteration ({op}) fails with 'database is locked' "
+                               f"(the iteration {'raised ' + raised if raised else 'returned normally'}); after three more iterations within the claim lifetime and two after it: {got} launch(es) "
+                               f"instead of {want}, {left} occurrence(s) still pending",
+                               {"family": "loop-fault", "backend": kind, "logic": logic, "fault_at_access": k, "operation": op})
+    ctx.notes["loop_faults"] = dict(res)
+
+
 # ================================================================================================
 # E. two concurrent loop iterations / cron passes on the real stores
 # ================================================================================================
@@ -1313,7 +1394,7 @@ def concurrent_lines_mem(ctx: Ctx, drv: LeanDriver) -> None:
 
 
 PHASES = ["cron_matcher", "cron_satisfied", "cron_poll_sequences", "cron_on_stores", "store_differential", "fixed_scenarios",
-          "loop_oracle", "concurrent_loops_mem", "concurrent_lines_mem", "concurrent_cron", "concurrent_loops_sqlite"]
+          "loop_oracle", "concurrent_loops_mem", "concurrent_lines_mem", "concurrent_cron", "concurrent_loops_sqlite", "loop_faults"]
 
 
 def phase_rngs(ctx: Ctx) -> dict[str, Any]:
@@ -1335,7 +1416,7 @@ def run(ctx: Ctx) -> None:
         fn = g[name]
         if name.startswith("cron_"):
             fn(ctx, drv, fam)
-        elif name in ("fixed_scenarios", "loop_oracle"):
+        elif name in ("fixed_scenarios", "loop_oracle", "loop_faults"):
             fn(ctx)
         else:
             fn(ctx, drv)
